@@ -273,6 +273,13 @@ def generate_grammar(bnf_grammar: str, token_namespace) -> Grammar:
                         reserved_strings,
                         terminal_or_nonterminal
                     )
+                    if transition in dfa_state.transitions:
+                        # The same token written in two ways, e.g. 'x' and "x".
+                        raise ValueError(
+                            "Rule %s is ambiguous; the token %s is used by two "
+                            "different arcs of the same state."
+                            % (nonterminal, transition)
+                        )
                     dfa_state.transitions[transition] = DFAPlan(next_dfa)
 
     _calculate_tree_traversal(rule_to_dfas)
